@@ -187,6 +187,167 @@ def d_u(n):
     return fn
 
 
+COVERS_PCHIP = [
+    ("emu_base/math/pchip_torch.py", "PCHIP1D.__init__"),
+    ("emu_base/math/pchip_torch.py", "PCHIP1D.__call__"),
+    ("emu_base/math/pchip_torch.py", "_pchip_derivatives"),
+    ("emu_base/math/pchip_torch.py", "_weighted_harmonic_mean"),
+    ("emu_base/math/pchip_torch.py", "_endpoint_slope"),
+    ("emu_base/math/pchip_torch.py", "_limit_endpoint"),
+    ("emu_base/math/pchip_torch.py", "_polynomial_coeffs"),
+]
+
+
+def pchip_gradient_finite(n_knots):
+    """The gradient of the interpolated drive with respect to the samples is finite for every sample
+    vector, flat and constant segments included.  PCHIP1D is built from +, -, *, /, sign, abs,
+    comparisons and torch.where; reverse-mode differentiation of such a graph yields a non-finite
+    gradient exactly when some division has a zero divisor - also when the quotient is afterwards
+    discarded by torch.where (the discarded branch receives gradient 0 and 0/0 = nan).  Symbolically:
+    every divisor met while the real code runs is recorded and z3 decides `divisor != 0` for all
+    sample values.  On the real torch (sample runs and replay of counterexamples) the very gradient is
+    computed with autograd and tested with isfinite."""
+
+    def fn(env):
+        T = env.torch
+        pm = env.mod("emu_base.math.pchip_torch")
+        ys = [env.real(f"y{k}", lo=-4.0, hi=4.0) for k in range(n_knots)]
+        xs = [float(k) for k in range(n_knots)]
+        xq = [k + 0.5 for k in range(n_knots - 1)] + [0.0, float(n_knots - 1)]
+        label = f"d(sum of interpolated values)/d(samples) is finite ({n_knots} knots, flat segments included)"
+        if env.mutant("flat_forbidden"):
+            # vacuity canary: an oracle that outlaws flat segments must be refuted
+            from symex.env import b_and
+
+            env.check(b_and(*[ys[k + 1] != ys[k] for k in range(n_knots - 1)]), "canary: no two neighbouring samples are equal")
+            return
+        if env.mode == "real":
+            y = T.tensor(ys, dtype=T.float64, requires_grad=True)
+            out = pm.PCHIP1D(T.tensor(xs, dtype=T.float64), y)(T.tensor(xq, dtype=T.float64)).sum()
+            out.backward()
+            env.check(bool(T.isfinite(y.grad).all()), label)
+            return
+        from symex import poly
+        from symex.env import b_and, b_not
+
+        poly.DIV_LOG = []
+        try:
+            pm.PCHIP1D(T.tensor(xs, dtype=T.float64), T.tensor(ys, dtype=T.float64))(T.tensor(xq, dtype=T.float64))
+        finally:
+            log, poly.DIV_LOG = poly.DIV_LOG, None
+        if env.mode != "sym":
+            # concrete symtorch run (differential validation of the shim only): plain floats, nothing is logged
+            env.check(True, label)
+            return
+        env.check(b_and(len(log) > 0, *[b_not(d == 0) for d in log]), label)
+
+    return fn
+
+
+COVERS_BACKWARD = [
+    ("emu_sv/time_evolution.py", "EvolveStateVector.backward"),
+    ("emu_sv/time_evolution.py", "EvolveStateVector.get_hamiltonian"),
+]
+
+FLAG_NAMES = ["omega", "delta", "phi", "interaction_matrix", "state"]
+FLAG_SETS_SMALL = [
+    (True, True, True, True, True),
+    (False, False, False, False, False),
+    (True, False, False, False, False),
+    (False, True, False, False, False),
+    (False, False, True, False, False),
+    (False, False, False, True, False),
+    (False, False, False, False, True),
+    (True, False, True, False, False),
+    (False, True, True, False, True),
+]
+
+
+def backward_assembly(n, all_flag_sets):
+    """EvolveStateVector.backward with double_krylov / krylov_exp as stubs returning arbitrary
+    (symbolic) Krylov data: every requested gradient is assembled from the right derivative operator,
+    for every combination of `needs_input_grad` flags."""
+
+    def fn(env):
+        from types import SimpleNamespace
+        import itertools
+
+        T = env.torch
+        te = env.mod("emu_sv.time_evolution")
+        omega, delta, phi, U = _params(env, n, False)
+        dim = 2**n
+        K = 2  # Krylov vectors per basis handed back by the stub
+        state = env.tensor_cplx("psi", (dim,))
+        gout = env.tensor_cplx("gpsi", (dim,))
+        dt = env.real("dt", lo=0.001, hi=100.0)
+        sets = list(itertools.product([False, True], repeat=5)) if all_flag_sets else FLAG_SETS_SMALL
+        flags = env.choice("needs_input_grad", sets)
+        ctx = SimpleNamespace(saved_tensors=(omega, delta, phi, U, state), dt=dt, tolerance=1e-8, needs_input_grad=(False,) + tuple(flags) + (False, False))
+        Vs = [env.tensor_cplx(f"Vs{k}", (dim,)) for k in range(K)]
+        Vg = [env.tensor_cplx(f"Vg{k}", (dim,)) for k in range(K)]
+        dS = env.tensor_cplx("dS", (K, K))
+        gin = env.tensor_cplx("gin", (dim,))
+        probe = env.tensor_cplx("x", (dim,))
+        Hd = refs.dense_rydberg(T, omega, delta, phi, U, n, 2)
+        rec = {"dk": [], "ke": []}
+
+        def fake_double_krylov(op, s, g, tol):
+            rec["dk"].append((op, s, g, tol))
+            return list(Vs), dS, list(Vg)
+
+        def fake_krylov_exp(op, v, *a, **k):
+            rec["ke"].append((op, v))
+            return gin
+
+        saved = (te.double_krylov, te.krylov_exp)
+        te.double_krylov, te.krylov_exp = fake_double_krylov, fake_krylov_exp
+        try:
+            out = te.EvolveStateVector.backward(ctx, gout, None)
+        finally:
+            te.double_krylov, te.krylov_exp = saved
+        env.check(len(out) == 8 and out[0] is None and out[6] is None and out[7] is None, "backward returns one slot per forward input; non-tensor inputs get None")
+        need_o, need_d, need_p, need_u, need_s = flags
+        for name, need, g in zip(FLAG_NAMES, flags, out[1:6]):
+            if need:
+                env.check(g is not None, f"a gradient is returned for `{name}` whenever it is requested (requested: {[m for m, f in zip(FLAG_NAMES, flags) if f]})")
+        if any(flags[:4]):
+            env.check(len(rec["dk"]) == 1, "one double Krylov decomposition per backward call")
+            if rec["dk"]:
+                op, s, g, tol = rec["dk"][0]
+                env.check_eq(s, state, "double_krylov gets the saved input state")
+                env.check_eq(g, gout, "double_krylov gets the incoming gradient")
+                env.check_eq(op(probe.clone()), (-1j * dt) * (Hd @ probe), "operator handed to double_krylov is -i dt H")
+        e_l = dS.mT @ T.stack(Vs)  # rows: the vectors the derivative operators act on
+        VgC = T.stack(Vg).conj()
+        sign = 1j if env.mutant("grad_sign") else -1j
+        sx, sy, nn = refs.sigma_x(T), refs.sigma_y(T), refs.n_op(T)
+
+        def ref_grad(D):
+            return (sign * dt * (VgC * _rows_of(T, D, e_l)).sum()).real
+
+        for k in range(n):
+            c, s = T.cos(phi[k]), T.sin(phi[k])
+            if need_o and out[1] is not None:
+                env.check_eq(out[1][k].real, ref_grad(refs.embed(T, 0.5 * (c * sx + s * sy), k, n)), f"grad_omega[{k}] = Re Tr(-i dt dH/dOmega_{k} Vs^T dS Vg^*) (n={n})")
+            if need_d and out[2] is not None:
+                env.check_eq(out[2][k].real, ref_grad(-1.0 * refs.embed(T, nn, k, n)), f"grad_delta[{k}] = Re Tr(-i dt dH/dDelta_{k} ...) (n={n})")
+            if need_p and out[3] is not None:
+                env.check_eq(out[3][k].real, ref_grad(refs.embed(T, 0.5 * omega[k] * (-s * sx + c * sy), k, n)), f"grad_phi[{k}] = Re Tr(-i dt dH/dphi_{k} ...) (n={n})")
+        if need_u and out[4] is not None:
+            for i in range(n):
+                for j in range(i + 1, n):
+                    env.check_eq(out[4][i, j].real, ref_grad(refs.embed2(T, nn, i, nn, j, n)), f"grad_U[{i},{j}] = Re Tr(-i dt n_{i} n_{j} ...) (n={n})")
+        if need_s:
+            env.check(len(rec["ke"]) == 1, "the state gradient is propagated with one exponential")
+            if rec["ke"]:
+                op, v = rec["ke"][0]
+                env.check_eq(v, gout, "the exponential acts on the incoming gradient")
+                env.check_eq(op(probe.clone()), (1j * dt) * (Hd @ probe), "the state gradient is propagated with exp(+i dt H)")
+                env.check(out[5] is gin, "grad_state_in is the result of that exponential")
+
+    return fn
+
+
 META = {
     "explanation": (
         "DHDOmegaSparse, DHDPhiSparse, DHDDeltaSparse and DHDUSparse (with _apply_omega_real/_apply_omega_complex) are "
@@ -261,6 +422,32 @@ def cases(tier):
                 bounds=b,
                 canaries=["delta_sign"] + (["wrong_pair"] if n >= 2 else []),
                 weight=4**n,
+            )
+        )
+    for nk in ([3, 4] if quick else [2, 3, 4, 5, 6]):
+        out.append(
+            Case(
+                f"pchip_gradient_finite_knots{nk}",
+                pchip_gradient_finite(nk),
+                covers=COVERS_PCHIP,
+                bounds={"knots": nk, "abscissae": "0,1,..", "samples": "symbolic in [-4,4] (equal neighbours allowed)", "query points": "all interval midpoints and both ends"},
+                canaries=["flat_forbidden"],
+                weight=3**nk,
+                timeout_ms=60000,
+                deadline_s=1500,
+            )
+        )
+    for n, all_sets in ([(1, True), (2, False)] if quick else [(1, True), (2, True), (3, False)]):
+        out.append(
+            Case(
+                f"backward_assembly_n{n}",
+                backward_assembly(n, all_sets),
+                covers=COVERS_BACKWARD + COVERS_OMEGA + COVERS_PHI + COVERS_DELTA + COVERS_U,
+                bounds={"n_qubits": n, "krylov_vectors_per_basis": 2, "needs_input_grad": "all 32 combinations" if all_sets else f"{len(FLAG_SETS_SMALL)} combinations (each alone, all, none, two mixed)"},
+                canaries=["grad_sign"],
+                weight=32 * 4**n,
+                timeout_ms=60000,
+                deadline_s=1500,
             )
         )
     return out
